@@ -2,7 +2,7 @@
    Model: Model/VConstraint.v.  Proofs: Proofs/RangeSpec.v, RangeAlg.v, RangeOps.v, UnionHull.v, UnionExact.v. *)
 From Coq Require Import List Bool NArith String.
 From PC Require Import Base.Cmp Base.Result Model.Pep440 Spec.Pep440Spec Model.VConstraint
-     Proofs.VersionFacts Proofs.RangeSpec Proofs.RangeAlg Proofs.RangeOps Proofs.UnionHull Proofs.UnionExact Proofs.Contain Proofs.InterExact Model.VHyp.
+     Proofs.VersionFacts Proofs.RangeSpec Proofs.RangeAlg Proofs.RangeOps Proofs.UnionHull Proofs.UnionExact Proofs.Contain Proofs.InterExact Proofs.DiffExact Model.VHyp.
 Import ListNotations.
 
 (* The property at full strength (every constraint shape, the three operations), kept visible.
@@ -119,5 +119,21 @@ Example C05_intersect_example :
     goodc a = true /\ goodc b = true /\ sorted_c a = true /\ sorted_c b = true /\
     intersect a b = Ok c /\ vc_str c = Ok ">=1.5,<2.0 || >3.0,<=3.5 || 5.0"%string /\ sorted_c c = true.
 Proof. do 3 eexists. repeat split; vm_compute; reflexivity. Qed.
-(* Still open: difference (range minus range, range minus union, the union state machine), that the operations return
-   at all beyond the range level, and that VersionUnion.of's result is [sorted_c] (checked at run time, not proved). *)
+(* Proved (the difference clause, two range-likes of any shape — single version or range on either side): exact on regular
+   probes when every bound of b is regular for a ([mreg_r], decidable: equal to, or of another release class than, each
+   bound of a; without it the implementation itself builds improper pieces such as [2.0, 2.0a1]). *)
+Theorem C05_difference_ranges : forall a b c, good a = true -> good b = true -> mreg_r a b = true ->
+  r_difference a b = Ok c ->
+  goodc c = true /\ incl (cbounds c) (rbounds a ++ rbounds b) /\
+  forall v, wf v = true -> regular_r v a = true -> regular_r v b = true -> vmem c v = mem a v && negb (mem b v).
+Proof. intros a b c Ga Gb MR H. destruct (r_difference_exact a b c Ga Gb MR H) as (A & B & C). auto. Qed.
+Print Assumptions C05_difference_ranges.
+Example C05_difference_example :
+  exists a b c, parse_single false ">=1.0"%string = Ok (VOne a) /\ parse_single false "<=2.0"%string = Ok (VOne b) /\
+    good a = true /\ good b = true /\ mreg_r a b = true /\ r_difference a b = Ok c /\ vc_str c = Ok ">2.0"%string.
+Proof. do 3 eexists. repeat split; vm_compute; reflexivity. Qed.
+(* Still open: difference with a union on either side (range minus union, the union state machine), that the operations
+   return at all beyond the range level, and that VersionUnion.of's result is [sorted_c]: it is not in general —
+   '>2.0 || 2.0.post2' is a union the implementation builds (the range excludes post-releases of its bound) whose members
+   overlap in the plain order; such operands are outside the hypotheses and are counted by the check at run time. *)
+
